@@ -206,6 +206,21 @@ class Gen:
         dist = f"|gauss({self.num(mean)},{self.ws()}{self.num(20)})|" if r.random() < 0.6 else f"|uniform({self.num(mean // 2)},{self.ws()}{self.num(mean)})|"
         return r.choice(["F", "C", "CO", "N"]) + "{" + self.bd(a) + " " + unit + second + ", " + stopper + "; " + cap + " []}" + dist
 
+    def lone_zero_weight(self):
+        """a pick whose ONLY compatible candidate has weight 0 (the growing end of a head-to-tail chain, the single start end group, the last
+        open descriptor at capping): equal weights -- a single one included -- mean a uniform pick, so it is taken with probability 1"""
+        r = self.r
+        k = r.choice([0, 1, 2, 3])
+        u = r.choice(["CC(C)", "CC", "COC", "C(F)C"])
+        if k == 0:      # growing end of weight 0
+            return r.choice(["[H]", "C", "N"]) + "{[>] [<]" + u + "[>|0|] [<]}" + self.dist(r.choice([80, 150])) + r.choice(["O", "F", "CO"])
+        if k == 1:      # the single start end group has weight 0
+            return "{[] [$]" + u + "[$] ; [$|0|]" + r.choice(["O", "N", "Cl"]) + " []}" + self.dist(r.choice([60, 120]))
+        if k == 2:      # '<' end of weight 0 met from the other side: the only candidate for the growing '>' ... and a weighted capping group
+            return r.choice(["C", "CO"]) + "{[<] [>]" + u + "[<|0|]; [>]" + r.choice(["[H]", "F"]) + " []}" + self.dist(r.choice([80, 150]))
+        # two-descriptor end group whose only compatible descriptor has weight 0
+        return "{[] [<]" + u + "[>]; [>|0|]" + r.choice(["OC", "N"]) + ", [<]" + r.choice(["[H]", "Cl"]) + " []}" + self.dist(r.choice([80, 150]))
+
     def step_growth(self):
         r = self.r
         aa = r.choice(["[<]C(=O)CCCCC(=O)[<]", "[<]C(=O)c1ccc(cc1)C(=O)[<]", "[<]OCCO[<]"])
@@ -267,7 +282,7 @@ class Gen:
         return self.r.choice(["CCO", "CCCCC", "c1ccccc1", "OCC(O)CO", "CC(=O)O", "[NH4+]", "C1CCCCC1"])
 
     ARCHETYPES = ["homopolymer", "random_copolymer", "block_copolymer", "alternating", "step_growth", "star", "graft",
-                  "end_initiated", "two_ids", "defective_list", "markov_copolymer", "list_handover", "branched_list_endgroup", "mixed_arms_handover", "chain_stopper"]
+                  "end_initiated", "two_ids", "defective_list", "markov_copolymer", "list_handover", "branched_list_endgroup", "mixed_arms_handover", "chain_stopper", "lone_zero_weight"]
 
     def molecule(self, archetype=None):
         a = archetype or self.r.choice(self.ARCHETYPES)
